@@ -672,7 +672,7 @@ impl GenCfg {
             backends: rng.chance(1, 2),
             docs: rng.chance(1, 2),
             flags: rng.chance(1, 2),
-            outlier: if rng.chance(1, 10) { rng.range(1, 6) } else { 0 },
+            outlier: if rng.chance(1, 8) { rng.range(1, 8) } else { 0 },
         }
     }
 }
@@ -736,6 +736,17 @@ impl<'a> Gen<'a> {
     }
 
     fn doc(&mut self) -> Option<String> {
+        // (size outlier: hundreds of doc lines, each with brackets that do not match)
+        if self.cfg.outlier == 8 && self.rng.chance(1, 6) {
+            let n = self.rng.range(260, 400);
+            let open = *self.rng.pick(&["(", "[", "{", "((", "<"]);
+            return Some(
+                (0..n)
+                    .map(|i| format!(" item {i}{open} see above"))
+                    .collect::<Vec<_>>()
+                    .join("\n"),
+            );
+        }
         if self.cfg.docs && self.rng.chance(1, 3) {
             let n = self.rng.range(1, 3);
             Some(
@@ -853,7 +864,12 @@ impl<'a> Gen<'a> {
         } else {
             format!("f{}", self.fn_counter)
         };
-        let nargs = self.rng.below(4);
+        // (size outlier: a function with dozens of parameters, pointers mostly)
+        let nargs = if self.cfg.outlier == 7 && self.rng.chance(1, 3) {
+            self.rng.range(20, 48)
+        } else {
+            self.rng.below(4)
+        };
         let args = (0..nargs)
             .map(|k| (format!("a{k}"), self.sig_ty(m)))
             .collect();
